@@ -264,4 +264,62 @@ theorem freeCPUsAll_ok (ctx : PickCtx) (a : Acc) (hnd : (a.alloc.map (·.cpu)).N
   · exact (sortByRef_perm a _).trans (sortAsc_perm _)
   · exact sortAsc_perm _
 
+/-! ### the exclusive-policy filter of the first pass (`filterExclusive = true`) -/
+
+theorem freeCPUsAll_from_filtered (ctx : PickCtx) (a : Acc) (hnd : (a.alloc.map (·.cpu)).Nodup) (fe : Bool) :
+    FromInfos (a.alloc.filter (fun i => !(fe && (exclPCPU ctx a i || exclNUMA ctx a i)))) (freeCPUsAll ctx a fe) := by
+  unfold freeCPUsAll
+  simp only []
+  have hnd' : ((a.alloc.filter (fun i => !(fe && (exclPCPU ctx a i || exclNUMA ctx a i)))).map (·.cpu)).Nodup :=
+    (List.filter_sublist.map _).nodup hnd
+  refine coreFlatSorted_from hnd' _ _ (dedupNat_nodup _) _ (fun c => ?_)
+  split
+  · exact (sortByRef_perm a _).trans (sortAsc_perm _)
+  · exact sortAsc_perm _
+
+/-- `freeCPUs(filterExclusive = true)` offers no CPU on a core held by a PCPULevel-exclusive pod (when the pod itself
+    asks PCPULevel) and no CPU of a NUMA node held by a NUMANodeLevel-exclusive pod (when it asks NUMANodeLevel). -/
+theorem freeCPUsAll_excl_sound (ctx : PickCtx) (a : Acc) (hnd : (a.alloc.map (·.cpu)).Nodup) :
+    ∀ x ∈ freeCPUsAll ctx a true, ∃ i ∈ a.alloc, i.cpu = x ∧ exclPCPU ctx a i = false ∧ exclNUMA ctx a i = false := by
+  intro x hx
+  obtain ⟨i, hi, hix⟩ := List.mem_map.mp ((freeCPUsAll_from_filtered ctx a hnd true).2 x hx)
+  obtain ⟨hia, hcond⟩ := List.mem_filter.mp hi
+  refine ⟨i, hia, hix, ?_, ?_⟩
+  · cases h : exclPCPU ctx a i <;> simp [h] at hcond ⊢
+  · cases h : exclNUMA ctx a i <;> simp [h] at hcond ⊢
+
+theorem mem_group_list (ctx : PickCtx) (a : Acc) (p q : CpuI → Bool) (fe : Bool) {x : Nat}
+    (hx : x ∈ (let l := sortAsc (((a.alloc.filter p).filter q).map (·.cpu))
+               let l := if ctx.maxRef > 1 then sortByRef a l else l
+               if fe then extractCPU ctx l else l)) :
+    ∃ i ∈ a.alloc, i.cpu = x ∧ p i = true ∧ q i = true := by
+  simp only [] at hx
+  have hx1 : x ∈ (if ctx.maxRef > 1 then sortByRef a (sortAsc (((a.alloc.filter p).filter q).map (·.cpu)))
+      else sortAsc (((a.alloc.filter p).filter q).map (·.cpu))) := by
+    split at hx
+    · exact (extractCPU_sublist ctx _).subset hx
+    · exact hx
+  have hx2 : x ∈ ((a.alloc.filter p).filter q).map (·.cpu) := by
+    split at hx1
+    · exact (sortAsc_perm _).mem_iff.mp ((sortByRef_perm a _).mem_iff.mp hx1)
+    · exact (sortAsc_perm _).mem_iff.mp hx1
+  obtain ⟨i, hi, hix⟩ := List.mem_map.mp hx2
+  obtain ⟨hi1, hq⟩ := List.mem_filter.mp hi
+  obtain ⟨hia, hp⟩ := List.mem_filter.mp hi1
+  exact ⟨i, hia, hix, hp, hq⟩
+
+/-- the same for the per-node / per-socket free-CPU lists of the first pass. -/
+theorem freeCPUsIn_excl_sound (ctx : PickCtx) (a : Acc) (byNode : Bool) :
+    ∀ l ∈ freeCPUsIn ctx a byNode true, ∀ x ∈ l,
+      ∃ i ∈ a.alloc, i.cpu = x ∧ exclPCPU ctx a i = false ∧ (byNode = true → exclNUMA ctx a i = false) := by
+  intro l hl x hx
+  unfold freeCPUsIn at hl
+  simp only [] at hl
+  obtain ⟨grp, _, rfl⟩ := List.mem_map.mp hl
+  obtain ⟨i, hia, hix, hcond, _⟩ := mem_group_list ctx a _ _ true hx
+  refine ⟨i, hia, hix, ?_, ?_⟩
+  · cases h : exclPCPU ctx a i <;> simp [h] at hcond ⊢
+  · intro hb
+    cases h : exclNUMA ctx a i <;> simp [h, hb] at hcond ⊢
+
 end KoordVerif.C06
